@@ -104,7 +104,7 @@ def verify_batch(lines):
 def main():
     run = Run('C10', 'exploration')
     ncpu = int(os.environ.get('VERIF_JOBS', '0') or 0) or os.cpu_count() or 4
-    p = subprocess.run([run.harness, '--tier', run.tier], stdout=subprocess.PIPE, text=True)
+    p = subprocess.run([run.harness, '--tier', run.tier], stdout=subprocess.PIPE, text=True, env=dict(os.environ, VERIF_DEADLINE_S=str(0.6 * run.deadline)))
     cases, stats, end, incomplete = [], {}, None, False
     for line in p.stdout.splitlines():
         if not line: continue
@@ -127,8 +127,14 @@ def main():
     heavy = [c for c in cases if c[0] in 'ST']
     light = [c for c in cases if c[0] not in 'ST']
     batches = [heavy[i:i + 2] for i in range(0, len(heavy), 2)] + [light[i:i + 40] for i in range(0, len(light), 40)]
+    done_batches = 0
     with multiprocessing.Pool(ncpu) as pool:
         for res in pool.imap_unordered(verify_batch, batches, chunksize=2):
+            done_batches += 1
+            if run.deadline_reached():  # never a violation: report what was completed
+                incomplete = True
+                pool.terminate()
+                break
             for key, what in res:
                 if key == 'HARNESS':
                     print('HARNESS-ERROR property=C10', what); return 2
@@ -138,6 +144,7 @@ def main():
     n_e = sum(1 for c in cases if c.startswith('E\t'))
     ref_digests = n_sh * len(HT) + n_tr * 256
     run.evaluations = ref_digests + n_e + sum(stats.get(k, 0) for k in ('cached_digest_comparisons', 'mutations_committed', 'mutations_uncommitted', 'signature_bit_flips', 'other_hashtype_bytes', 'misc_signature_checks'))
+    run.extra['reference_batches_completed'] = f'{done_batches}/{len(batches)}'
     run.extra['reference_digests'] = ref_digests
     run.extra['reference_verified_signatures'] = n_e
     run.extra['cpp_side'] = stats
@@ -150,7 +157,7 @@ def main():
     for s in ('mutations_committed', 'mutations_uncommitted', 'signature_bit_flips', 'other_hashtype_bytes', 'accepted_baselines', 'cached_digest_comparisons', 'unsignable_taproot_single'):
         if stats.get(s, 0) == 0: problems.append('stat ' + s + ' is 0')
     if not n_sh or not n_tr or not n_e: problems.append('missing line kinds')
-    if problems and not run.violations:
+    if problems and not run.violations and not incomplete:
         print('HARNESS-ERROR property=C10 vacuous:', problems); return 2
     for c in (cases[0], cases[len(cases) // 2], cases[-1]):
         run.sample(c[:240])
